@@ -167,3 +167,21 @@ def purity_nonumpy(a, b, w):
                      float(ed.distance(x, y)).hex(), float(dtw.ub_euclidean(x, y)).hex(),
                      [float(v).hex() for v in dtw.distance_matrix([x, y, x], compact=True, **kw)]]
     return out
+
+
+# ---------------------------------------------------------------------------------------------------------------------
+# C07: OpenMP distance matrix vs serial under a given runtime environment (thread limits are read when libgomp starts,
+# so this runs in a worker sub-process with OMP_* set)
+def omp_vs_serial(series, ndim, block, kw):
+    import numpy as np
+    from dtaidistance import dtw, dtw_ndim
+    mod = dtw if ndim == 1 else dtw_ndim
+    data = [np.array(s, dtype=float).reshape((-1, ndim)) if ndim > 1 else np.array(s, dtype=float) for s in series]
+    extra = {} if ndim == 1 else {"ndim": ndim}
+    blk = None if block is None else ((block[0], block[1]), (block[2], block[3]), bool(block[4]))
+    ser = list(mod.distance_matrix(data, block=blk, compact=True, parallel=False, use_c=True, **extra, **kw))
+    out = []
+    for _ in range(3):
+        par = list(mod.distance_matrix(data, block=blk, compact=True, parallel=True, use_c=True, **extra, **kw))
+        out.append([float(x).hex() for x in par])
+    return {"serial": [float(x).hex() for x in ser], "parallel": out}
